@@ -73,23 +73,37 @@ def run(rep, tier, seed, b):
         smi = smi[0] if isinstance(smi, list) else smi
         if deco != base and dec_side.nontrivial_output(smi):
             rep.nontriv(deco)
-    # the padding corollary: selfies_to_encoding + encoding_to_selfies
+    # the padding corollary: selfies_to_encoding + encoding_to_selfies, both encodings and the flat-hot batch API,
+    # on the plain string and on the string with [nop] already inside it
     for it in items[:2000 if tier == 'quick' else 20000]:
-        base = it[1][0]
-        toks = dec_side.tokens_of(base)
-        vocab = list(dict.fromkeys(toks + ['[nop]', '.']))
-        stoi = {s: i for i, s in enumerate(vocab)}
-        itos = {i: s for s, i in stoi.items()}
-        pad = len(toks) + rng.randint(0, 6)
-        lab = call(s_.selfies_to_encoding, base, stoi, pad, 'label')
-        if 'ok' not in lab:
-            continue
-        back = call(s_.encoding_to_selfies, lab['ok'], itos, 'label')
+        base, deco = it[1]
         dec_common.set_table(s_, it[0])
-        if 'ok' in back and call(s_.decoder, back['ok']) != call(s_.decoder, base):
-            rep.oracle_failures.append({'clause': 'a string padded by selfies_to_encoding and recovered decodes like the original',
-                                        'input': {'table': it[0], 'selfies': base, 'decorated': back['ok'], 'compatible': False, 'attribute': False}})
-        rep.evaluations += 1
+        want = call(s_.decoder, base)
+        for src in (base, deco):
+            toks = dec_side.tokens_of(src)
+            vocab = list(dict.fromkeys(toks + ['[nop]', '.']))
+            rng.shuffle(vocab)
+            stoi = {s: i for i, s in enumerate(vocab)}
+            itos = {i: s for s, i in stoi.items()}
+            pad = len(toks) + rng.randint(0, 6)
+            for enc in ('label', 'one_hot', 'flat_hot'):
+                if enc == 'flat_hot':
+                    e = call(s_.batch_selfies_to_flat_hot, [src], stoi, pad)
+                    back = call(s_.batch_flat_hot_to_selfies, e['ok'], itos) if 'ok' in e else e
+                    back = {'ok': back['ok'][0]} if 'ok' in back else back
+                else:
+                    e = call(s_.selfies_to_encoding, src, stoi, pad, enc)
+                    back = call(s_.encoding_to_selfies, e['ok'], itos, enc) if 'ok' in e else e
+                rep.evaluations += 1
+                rep.count('padding corollary (%s)' % enc)
+                if 'ok' not in back:
+                    continue
+                got = call(s_.decoder, back['ok'])
+                if got != want:
+                    rep.oracle_failures.append({'clause': 'a string padded by selfies_to_encoding and recovered with encoding_to_selfies decodes like the original (%s)' % enc,
+                                                'input': {'table': it[0], 'selfies': base, 'decorated': back['ok'], 'compatible': False, 'attribute': False,
+                                                          'encoded_from': src, 'enc_type': enc, 'pad_to_len': pad},
+                                                'impl': [want, got]})
     for it in items[:5]:
         rep.sample({'original': it[1][0], 'decorated': it[1][1], 'compatible': it[2], 'attribute': it[3]})
     rep.rule = ('live strings (incl. legacy/invalid symbols, multi-fragment) x tables x flags; [nop] inserted at token boundaries with extra weight on '
@@ -99,6 +113,20 @@ def run(rep, tier, seed, b):
 
 def replay(data):
     i = data['failure']['input']
+    if 'enc_type' in i:
+        s_ = sf()
+        dec_common.set_table(s_, i['table'])
+        src = i['encoded_from']
+        toks = dec_side.tokens_of(src)
+        vocab = list(dict.fromkeys(toks + ['[nop]', '.']))
+        stoi = {s: k for k, s in enumerate(vocab)}
+        itos = {k: s for s, k in stoi.items()}
+        if i['enc_type'] == 'flat_hot':
+            back = s_.batch_flat_hot_to_selfies(s_.batch_selfies_to_flat_hot([src], stoi, i['pad_to_len']), itos)[0]
+        else:
+            back = s_.encoding_to_selfies(s_.selfies_to_encoding(src, stoi, i['pad_to_len'], i['enc_type']), itos, i['enc_type'])
+        a, b = call(s_.decoder, i['selfies']), call(s_.decoder, back)
+        return {'input': i, 'recovered': back, 'impl_original': a, 'impl_recovered': b, 'fails': a != b}
     r = work([(i['table'], (i['selfies'], i['decorated']), i.get('compatible', False), i.get('attribute', False))], None)[0]
     return {'input': i, 'impl_original': r[0], 'impl_decorated': r[1], 'fails': r[0] != r[1]}
 
